@@ -194,6 +194,7 @@ class Run:
             k, sp, base, cnt = job
             ev = dict(env or {})
             ev["TRACE_FILE"] = sp
+            ev.setdefault("VERIF_EXTRA", "0")   # "1": the monitor also applies its rules beyond the listed properties (E.. checks)
             r = self.tlc(module, cfg, env=ev, workers=1, timeout=timeout, xmx=xmx, check=False, tag="%s-sh%d-%d" % (cfg, k, base))
             if not r["ok"]:
                 raise Infra("trace validation %s shard %d did not complete:\n%s" % (cfg, k, r["stdout"][-5000:]))
@@ -224,13 +225,15 @@ class Run:
 # -------------------------------------------------------------------- known findings
 def load_known():
     known, fixed = {}, []
-    p = os.path.join(VERIF, "KNOWN_FINDINGS.txt")
-    if os.path.exists(p):
+    # EXTRA_FINDINGS.txt: recorded observations of the checks beyond the listed properties (ids E..), same line format
+    for p in (os.path.join(VERIF, "KNOWN_FINDINGS.txt"), os.path.join(VERIF, "EXTRA_FINDINGS.txt")):
+        if not os.path.exists(p):
+            continue
         for line in open(p):
             line = line.strip()
             if not line or line.startswith("#"):
                 continue
-            m = re.match(r"known: property=(C\d+) id=(\S+) (.*)$", line)
+            m = re.match(r"known: property=([CE]\d+) id=(\S+) (.*)$", line)
             if m:
                 known[m.group(2)] = {"property": m.group(1), "text": m.group(3)}
             elif line.startswith("fixed:"):
